@@ -81,7 +81,7 @@ func xzEncode(format string, p []byte, r *prng.R) []byte {
 		}
 		if r.Bool() {
 			// several blocks per stream (xz -T and --block-size write such files)
-			args = append(args, fmt.Sprintf("--block-size=%d", r.Pick(500, 4096, 20000)))
+			args = append(args, fmt.Sprintf("--block-size=%d", r.Pick(500, 4096, 20000, 1<<20)))
 			if r.Bool() {
 				args = append(args, "-T2")
 			}
@@ -157,6 +157,11 @@ func genInv(r *prng.R, i int) cliInv {
 			}
 			mb.Name = base + suffix
 			if r.Chance(1, 3) {
+				if r.Chance(1, 3) {
+					// content for which xz-utils emits compressed, uncompressed and again compressed
+					// chunks inside one block (the last with a state reset but no new properties)
+					mb.Plain = gen.Data(r, []string{"sandwich", "sandwich2", "altseg"}[r.Intn(3)], r.Pick(200000, 290000))
+				}
 				if b := xzEncode(f, mb.Plain, r); b != nil {
 					mb.Bytes, mb.Foreign = b, true
 				}
